@@ -506,7 +506,9 @@ class extract_visitor(NodeVisitor):
                     name.flow = pp  # type: ignore[attr-defined]
                     # (the variable of a comprehension is its own: it does not
                     # make the name a local of the enclosing function)
-                    p.add_name(AssignedName(name.id, np(node), np(name), g.iter), local=False)
+                    cname = AssignedName(name.id, np(node), np(name), g.iter)
+                    cname.comprehension = True  # type: ignore[attr-defined]
+                    p.add_name(cname, local=False)
             self.visit_in_flow(g.target, p)
 
             if g.ifs:
